@@ -40,8 +40,11 @@ def exception_types():
     """exception classes an application's callback may raise: ordinary ones, the iterator-protocol ones (a budget callback
     such as `iter(range(n)).__next__`), and the non-Exception ones that cancel (KeyboardInterrupt-like)"""
     import asyncio
+    # ... and the families a driver is most tempted to catch for reasons of its own (a pool that cannot start its threads raises
+    # RuntimeError / OSError; a timeout of the application is a TimeoutError, i.e. an OSError)
     return [Stop, StopIteration, Budget, StopAsyncIteration, LookupError, ArithmeticError, HardStop, GeneratorExit,
-            asyncio.CancelledError, SystemExit]
+            asyncio.CancelledError, SystemExit, TimeoutError, RuntimeError, RecursionError, ConnectionError, MemoryError,
+            NotImplementedError, KeyboardInterrupt]
 
 
 CALLBACK_KINDS = ["function", "function", "falsy_callable", "bound_method", "partial"]
